@@ -355,6 +355,70 @@ SPELLINGS = [
 ]
 
 
+PRODUCT_TEXTS = [("s⋅km", "measured.si.Second * (measured.si.Kilo * measured.si.Meter)"),
+                 ("km⋅s", "(measured.si.Kilo * measured.si.Meter) * measured.si.Second"),
+                 ("N mm", "measured.si.Newton * (measured.si.Milli * measured.si.Meter)"),
+                 ("m⋅ks⁻¹", "measured.si.Meter * (measured.si.Kilo * measured.si.Second)**-1"),
+                 ("kg*mm^2/ms", "measured.si.Kilogram * (measured.si.Milli * measured.si.Meter)**2 / (measured.si.Milli * measured.si.Second)"),
+                 ("m/ks", "measured.si.Meter / (measured.si.Kilo * measured.si.Second)")]
+
+
+def callback_products(rep: report.Report) -> None:
+    """The parser's callbacks ARE the operators: for shadow units with symbolic prefix and factor
+    exponents, unit_sequence(a, b) has the intern key of a * b and unit(a, b) that of a / b (z3 over
+    the keys), so a product means the same whichever term carries the prefix."""
+    import measured
+    from measured import Unit, parsing
+    from props import c01, c02
+
+    c01.N = c02.N = im.ndim()
+    T = parsing.QuantityTransformer
+    tr = T()
+    P = symnum.Prover(20000)
+    bases = [measured.Unit._by_name[n] for n in ("meter", "second", "kilogram")]
+
+    def fn() -> Any:
+        a = c01.operand("a", bases[:2], 10)
+        b = c01.operand("b", bases[1:], 10)
+        seq = T.unit_sequence.base_func(tr, a, b)
+        quo = T.unit.base_func(tr, a, b)
+        return (seq, Unit._multiply.__wrapped__(a, b)), (quo, Unit._divide.__wrapped__(a, b))
+
+    with symnum.Shims(), im.Tables("absent"):
+        ex = explore(fn, max_paths=400, query_timeout_ms=20000)
+    rep.merge_stats(queries=ex.queries, solver_s=ex.solver_s, paths=len(ex.paths))
+    bad = None
+    for i, p in enumerate(ex.paths):
+        key = ("callback-products", i)
+        if p.exc is not None:
+            rep.ob("unknown", f"parser callbacks on shadow units#p{i}: {p.outcome}", key)
+            continue
+        ok = True
+        for what, (got, want) in zip(("unit_sequence(a, b) is a * b", "unit(a, b) is a / b"), p.result):
+            comparable, cond, why = c02.key_equal(got, want)
+            st, _ = P.check(p.cond, z3.Not(cond if comparable else z3.BoolVal(False)))
+            if st != "unsat":
+                ok = False
+                bad = bad or (what, why)
+        rep.ob("unsat" if ok else "sat", f"parser callbacks on shadow units#p{i}: products and quotients are the operators'", key)
+    if bad:
+        lines = "\n".join(f"check({t!r}, {c})" for t, c in PRODUCT_TEXTS)
+        rep.violation("C13:spelling:callback-products", f"{bad[0]} fails on shadow units ({bad[1]}): a product text does not "
+                      f"mean the product of its terms", families.REPLAY_IMPORTS + f"""
+bad = []
+def check(text, want):
+    got = measured.Unit.parse(text)
+    print(repr(text), '->', got, ' the product of its terms:', want)
+    if got is not want:
+        bad.append(text)
+{lines}
+if bad:
+    print('REPRODUCED: these texts do not parse to the product of their terms:', bad); sys.exit(1)
+sys.exit(0)
+""")
+    rep.functions.update(["measured.parsing.QuantityTransformer.unit_sequence", "measured.parsing.QuantityTransformer.unit"])
+
+
 def ambiguous_tokens(text: str, orc: Any) -> List[str]:
     """Symbol tokens of a rendered unit that are a registered unit symbol AND a registered
     prefix symbol + unit symbol of a different physical value."""
@@ -591,6 +655,7 @@ sys.exit(0)
                                                            "quantity-differs", "quantity-unparsable")
                       else spelling_replay(code, text),
                       soft=(cls == "unknown-size"))    # the oracle could not size what came back: a candidate
+    callback_products(rep)
     # alternative spellings
     from measured.parsing import ParseError
 
